@@ -114,3 +114,64 @@ def c06_validate_txs_gate(ctx, v):
             n_ok += 1
     v.covers_total += 1
     v.covers_sat += 1 if n_ok else 0
+
+
+def c06_merkle_commits_every_tx(ctx, v):
+    """the leaf construction of MerkleTree::generate for blocks of 1..=3 transactions whose
+    txs_replacements field is any value 0..=3 (it comes off the wire): every carried transaction
+    contributes at least one leaf, and that leaf carries the transaction's own hash_for_signature
+    (or the zero hash if it has none) — no carried transaction is left out of the commitment."""
+    body = ctx.body(r"merkle::<impl at [^>]*>::generate$")
+    for n in (1, 2, 3):
+        ex = ctx.executor(loop_bound=4 * n + 4, inline="auto", max_paths=5000)
+        ex.stop_calls = [r"LinkedList::<Box<MerkleTreeNode>>::len$"]
+        txs, reps, hashes = [], [], []
+        for i in range(n):
+            r = ex.fresh_value("u32", "tx%d.txs_replacements" % i)
+            h = ex.fresh_value("[u8; 32]", "tx%d.hash" % i)
+            hfs = S.EnumV("Option<[u8; 32]>", "Some", None, {"Some": S.Agg("variant", "Some", [h])})
+            txs.append(ctx.mk_struct(ex, "Transaction", "tx%d" % i, txs_replacements=r, hash_for_signature=hfs))
+            reps.append(r)
+            hashes.append(h)
+        st = S.State()
+        st.pc.extend([z3.ULE(r.bv, 3) for r in reps])
+        outs = ex.run(body, [S.Ref(S.Cell(S.Seq(txs, "Transaction")))], st)
+        v.paths += len(outs)
+        seen = 0
+        for o in outs:
+            if o.kind in ("unsupported", "unwound", "path-limit"):
+                return v.undecided("n=%d %s %s" % (n, o.kind, o.info))
+            if o.kind == "panic":
+                v.fail("n=%d panic: %s" % (n, o.info))
+                continue
+            if o.kind != "stopped":
+                continue
+            leaves = o.state.frames[0].locals["_3"].v
+            if not isinstance(leaves, S.Seq):
+                return v.undecided("leaf list not modelled")
+            per_tx = dict((i, []) for i in range(n))
+            for bx in leaves.items:
+                node = ex.deref_value(bx.fields[0]) if isinstance(bx, S.Agg) and bx.kind == "box" else ex.deref_value(bx)
+                nt = node.fields[0]
+                idx = nt.payload["Transaction"].fields[0] if isinstance(nt, S.EnumV) and "Transaction" in nt.payload else None
+                if idx is None:
+                    return v.undecided("leaf without a transaction index")
+                per_tx[S.as_int(idx)].append(node)
+            v.queries += 1
+            missing = [i for i in range(n) if not per_tx[i]]
+            if missing:
+                r, m = ex.model_for(o.pc)
+                v.fail("block of %d transactions: transaction %d contributes no leaf to the merkle tree (it is carried by the block but not committed to by the header's root)" % (n, missing[0]),
+                       dict(txs_replacements=[m.eval(x.bv, model_completion=True).as_long() for x in reps]))
+                continue
+            from .models import as_enum, enum_is, payload
+            for i in range(n):
+                lh = as_enum(ex, per_tx[i][0].fields[1], "Option")
+                good = z3.And(enum_is(ex, lh, "Some"), value_eq(ex, payload(ex, lh, "Some"), hashes[i])) if lh.variant != "None" else z3.BoolVal(False)
+                r, m = ex.model_for(o.pc, z3.Not(good))
+                v.queries += 1
+                if r == z3.sat:
+                    v.fail("block of %d transactions: the leaf of transaction %d does not carry its hash" % (n, i))
+            seen += 1
+        v.covers_total += 1
+        v.covers_sat += 1 if seen else 0
